@@ -9,6 +9,20 @@ TB = ("Lean 4.33 kernel + axioms propext/Classical.choice/Quot.sound (audited pe
       "tools/translate.py and the correspondence harness tie the model to /repo; ")
 
 CLAIMED = {
+ "C01": dict(
+   technique="Lean 4 proof (collapse of the path sum for diagonal kernels, exp-homomorphism, telescoping of eta cells) over a model whose influence formula/arguments are regenerated from source + differential correspondence",
+   text=("Proved for all n, dimensions and memory settings: with half-step propagators diagonal in the coupling eigenbasis "
+         "TEMPO's state is entrywise rho0 x free phase x product of admitted influence factors (commuting_collapse); for "
+         "influence_matrix's formula (regenerated from source: infl_entry_is_model) that product is "
+         "E(-Om(Re S Om + i Im S Op)) with S the sum of the admitted eta-cells (decoherence_factor) - populations constant; "
+         "with full memory S = eta(n dt) - eta(0), the double time integral (full_memory_sum/tiling); with a cut-off the rows are "
+         "strip integrals (cutoff_row_sum) and with an additional correlation time the strip reaches to time_2 (row_sum_rect); "
+         "influence_matrix's (shape,time_1,time_2) requests are regenerated and characterised (influence_args). Through C02 the "
+         "same holds for PT-TEMPO+compute_dynamics. Tie: real influence_matrix arguments bit-exact, entries 1e-12; real Tempo and "
+         "PT runs for commuting models in eigen- and rotated bases vs the closed form (1e-8)."),
+   ref="§4 C01",
+   note=TB + "np.exp homomorphism, quad accuracy assumed; NOT shown: equality with explicit finite-mode simulation for "
+        "non-commuting systems (Feynman-Vernon), the tolerance-multiple deviation bound."),
  "C02": dict(
    technique="Lean 4 proof (induction over steps on a path-sum / MPO-contraction model) + differential correspondence on the real tensors",
    text=("Theorems for every number of steps, bond dimension, influence table (hence memory setting) and propagator "
